@@ -12,7 +12,22 @@
 //! and a second (base, reference) pair -- absolute or RELATIVE base, the reference mostly the case's own string,
 //! valid or not -- through every resolve entry point (Iri / IriRef / BaseIri / BaseIriRef, resolve / resolve_into,
 //! typed references of every IsIriRef type / &str).
-//! `--probe <hex of utf-8>` prints every verdict for one string (used to replay `ka` counter-examples).
+//! Every case also goes through the serde entry points of iri/src/_serde.rs: `impl Deserialize for Iri / IriRef` over
+//! String, Box<str>, Rc<str>, Arc<str>, Cow, &str, driven by serde's own value deserializers (visit_str / visit_string /
+//! visit_borrowed_str / visit_bytes), by serde_json (from_str plain and \u-escaped, from_slice, from_reader, from_value) and
+//! by toml, bare and inside Option / Vec / map / derived structs / tagged and untagged enums; `impl Serialize` and the
+//! Serialize -> Deserialize round trip.  ORACLE: a value is constructed iff the text is an RFC 3987 IRI (IRI reference),
+//! it holds the text unchanged, nothing panics.
+//! Directed streams: every ASCII delimiter, every non-ASCII character whose Unicode case mapping contains an ASCII
+//! character (U+017F, U+212A, U+0130, U+0131, ligatures ... computed from std's tables) and compatibility look-alikes of
+//! the delimiters / letters / digits, substituted at every grammar position (scheme first / middle / last, userinfo,
+//! host, IPv6, IPvFuture, port, every kind of path, query, fragment, pct-encoded) -- full pipeline and Coq model; and a
+//! wider SWEEP (validators against the RFC 3987 recogniser only) of ~3000 characters (U+0000-U+02FF, every cased
+//! neighbour of ASCII, letterlike / fullwidth / small forms, every numeric or white-space character, every class
+//! boundary +-2 of the regexes and of the RFC) at every position.
+//! `--probe <hex of utf-8>` prints every verdict for one string (used to replay `ka` counter-examples and sweep findings).
+use serde::de::value::{BorrowedStrDeserializer, BytesDeserializer, Error as VErr, StrDeserializer, StringDeserializer, U32Deserializer, UnitDeserializer};
+use serde::{Deserialize, Serialize};
 use sophia_api::ns::Namespace;
 use sophia_iri::resolve::{BaseIri, BaseIriRef};
 use sophia_iri::{AsIri, AsIriRef, InvalidIri, Iri, IriRef, is_absolute_iri_ref, is_relative_iri_ref, is_valid_iri_ref, is_valid_suffixed_iri_ref};
@@ -253,6 +268,63 @@ fn systematic() -> Vec<String> {
     }
     v
 }
+/// every grammar position of an IRI / a relative reference where one character is substituted ("{}")
+const POSITIONS: &[(&str, &str)] = &[
+    ("scheme:first", "{}b://h/p"), ("scheme:first,short", "{}:x"), ("scheme:whole", "{}:"), ("scheme:middle", "a{}b://h/p"), ("scheme:last", "ab{}:p"), ("scheme:last,authority", "http{}://example.org/"),
+    ("userinfo", "s://u{}@h/"), ("userinfo:after-colon", "s://u:{}@h"),
+    ("host", "s://{}/"), ("host:middle", "s://a{}b.c/p"), ("host:relative", "//{}"),
+    ("ipv6:h16", "s://[1:{}::2]/"), ("ipv6:first", "s://[{}::]/"), ("ipv6:dec-octet", "s://[::1.2.3.{}]/"), ("ipvfuture:v", "s://[{}1.x]/"), ("ipvfuture:version", "s://[v{}.x]/"), ("ipvfuture:tail", "s://[v1.{}]/"),
+    ("port", "s://h:{}/"), ("port:middle", "s://h:8{}0/p"), ("port:relative", "//h:{}"),
+    ("path:abempty", "s://h/{}"), ("path:abempty,later", "s://h/a/{}b"), ("path:absolute", "s:/{}"), ("path:rootless", "s:{}"), ("path:rootless,later", "s:a/{}"),
+    ("path:noscheme,first", "{}"), ("path:noscheme,first,middle", "a{}b/c"), ("path:noscheme,later", "a/{}"), ("path:relative,absolute", "/{}"), ("path:relative,dot", "./{}"),
+    ("query", "s:?{}"), ("query:authority", "s://h/p?a={}"), ("query:relative", "?{}"), ("query:relative,path", "p?{}"),
+    ("fragment", "s:#{}"), ("fragment:authority", "s://h/p?q#{}"), ("fragment:relative", "#{}"), ("fragment:relative,path", "p#a{}"), ("fragment:relative,query", "?x#y{}z"),
+    ("pct:first", "s:%{}0"), ("pct:second", "s:%0{}"), ("pct:relative", "%4{}"),
+];
+/// non-ASCII characters related to an ASCII character by the Unicode case mappings (computed from std's tables, not
+/// listed): U+0130, U+0131, U+017F, U+212A, U+00DF, U+0149, U+01F0, U+1E96..U+1E9A, U+FB00..U+FB06 ...
+fn ascii_case_partners() -> Vec<char> {
+    let mut v = vec![];
+    for u in 0x80u32..=0x10FFFF {
+        if let Some(c) = char::from_u32(u) {
+            if c.to_lowercase().chain(c.to_uppercase()).any(|x| x.is_ascii()) { v.push(c); }
+        }
+    }
+    v
+}
+/// compatibility / look-alike forms of the delimiters, letters and digits, other digits, white space, line ends,
+/// controls, non-characters
+const LOOKALIKES: &[char] = &['\u{FF1A}', '\u{FF0F}', '\u{FF1F}', '\u{FF03}', '\u{FF20}', '\u{FF3B}', '\u{FF3D}', '\u{FF05}', '\u{FF0E}', '\u{FE55}', '\u{2024}', '\u{2044}', '\u{FF21}', '\u{FF41}', '\u{FF56}', '\u{FF10}', '\u{0660}', '\u{0966}', '\u{1D7CE}',
+    '\u{2126}', '\u{212B}', '\u{00B5}', '\u{1E9E}', '\u{00AA}', '\u{0345}', '\u{03C2}', '\u{00A0}', '\u{2028}', '\u{3000}', '\u{0085}', '\u{0000}', '\u{000A}', '\u{000D}', '\u{007F}', '\u{FFFD}', '\u{FEFF}', '\u{FFFE}', '\u{10FFFF}'];
+const DELIMS: &[char] = &[':', '/', '?', '#', '[', ']', '@', '%', '.', '+', '-', 'a', 'G', 'v', '0', '5', ' '];
+/// the directed stream that goes through the full pipeline and the Coq model: DELIMS, ascii_case_partners and LOOKALIKES
+/// at every position
+fn directed_positions() -> Vec<String> {
+    let mut chars: Vec<char> = DELIMS.to_vec();
+    for c in ascii_case_partners().into_iter().chain(LOOKALIKES.iter().copied()) { if !chars.contains(&c) { chars.push(c); } }
+    let mut v = vec![];
+    for c in chars { for (_, t) in POSITIONS { v.push(t.replace("{}", &c.to_string())); } }
+    v
+}
+/// the characters of the validators-only sweep
+fn sweep_chars() -> Vec<char> {
+    let mut set = std::collections::BTreeSet::new();
+    let mut add = |u: u32| { if let Some(c) = char::from_u32(u) { set.insert(c); } };
+    for u in 0..0x300 { add(u); }
+    for (a, b) in [(0x2000u32, 0x2200u32), (0x3000, 0x3004), (0xFB00, 0xFB07), (0xFE50, 0xFE70), (0xFF00, 0xFFF0)] { for u in a..b { add(u); } }
+    // every class boundary of the regexes / of RFC 3987, +-2
+    for &(a, b) in UCS.iter().chain(PRIV.iter()) { for d in 0..=2u32 { add(a.wrapping_sub(d)); add(a + d); add(b.wrapping_sub(d)); add(b + d); } }
+    for p in 0..=16u32 { add(p * 0x10000 + 0xFFFE); add(p * 0x10000 + 0xFFFF); add(p * 0x10000); }
+    for u in [0xD7FFu32, 0xE000, 0xFDD0, 0xFDEF, 0xE0000, 0xE0FFF, 0xE1000] { add(u); }
+    for u in 0x80u32..=0x10FFFF {
+        if let Some(c) = char::from_u32(u) {
+            // \d, \s, (?i): every numeric or white-space character, every character whose case mapping is or contains ASCII
+            if c.is_numeric() || c.is_whitespace() || c.to_lowercase().chain(c.to_uppercase()).any(|x| x.is_ascii()) { add(u); }
+        }
+    }
+    set.into_iter().collect()
+}
+
 const ALPHABET: &[char] = &[':', '/', '?', '#', '[', ']', '@', '%', '.', '-', 'v', 'V', '0', '1', '2', '5', '9', 'a', 'f', 'F', 'g', 'G', '+', '!', '~', '_', '\u{e9}', '\u{e000}', ' ', '^', '\u{fdd0}'];
 fn gen_str(r: &mut Rng, pool: &[&str], lo: usize, hi: usize) -> String { let n = r.range(lo, hi); (0..n).map(|_| *r.pick(pool)).collect() }
 const UNRES: &[&str] = &["a", "Z", "0", "9", "-", ".", "_", "~", "\u{e9}", "\u{a0}", "\u{d7ff}", "\u{f900}", "\u{10000}", "\u{efffd}", "g", "v"];
@@ -682,6 +754,175 @@ fn resolve_consistency(base: &str, base_abs: bool, rf: &str, rf_valid_rfc: bool,
     (typed0, str0)
 }
 
+// =====================================================================================
+// the serde entry points (iri/src/_serde.rs)
+// =====================================================================================
+/// what one construction path did: Ok(Some(text held by the constructed value)) / Ok(None) = Err returned / Err(panic)
+type Out = Result<Option<String>, String>;
+trait Txt { fn txt(&self) -> String; }
+impl<T: Borrow<str>> Txt for Iri<T> { fn txt(&self) -> String { self.as_str().to_string() } }
+impl<T: Borrow<str>> Txt for IriRef<T> { fn txt(&self) -> String { self.as_str().to_string() } }
+fn rec<W: Txt, E>(v: &mut Vec<(String, Out)>, w: &str, name: &str, f: impl FnOnce() -> Result<W, E>) { v.push((format!("{w}{name}"), quiet(|| f().ok().map(|i| i.txt())))); }
+/// JSON string literal with every non-ASCII or control character (and ':' '/' '?' '#') written as \uXXXX (surrogate pairs)
+fn json_all_escaped(s: &str) -> String {
+    let mut o = String::from("\"");
+    for c in s.chars() {
+        if c.is_ascii_alphanumeric() { o.push(c); } else { let mut b = [0u16; 2]; for u in c.encode_utf16(&mut b) { o.push_str(&format!("\\u{:04x}", u)); } }
+    }
+    o.push('"');
+    o
+}
+#[derive(Serialize, Deserialize, Debug)] struct IriDoc { id: Iri<String> }
+#[derive(Serialize, Deserialize, Debug)] struct IriRefDoc { id: IriRef<String> }
+#[derive(Deserialize, Debug)] struct IriBorrowDoc<'a> { #[serde(borrow)] id: Iri<&'a str> }
+#[derive(Deserialize, Debug)] struct IriRefBorrowDoc<'a> { #[serde(borrow)] id: IriRef<&'a str> }
+#[derive(Serialize, Deserialize, Debug)] struct IriBoxDoc { n: u8, id: Iri<Box<str>>, tail: Vec<u8> }
+#[derive(Serialize, Deserialize, Debug)] struct IriRefBoxDoc { n: u8, id: IriRef<Box<str>>, tail: Vec<u8> }
+/// the table of the crate's own tests
+#[derive(Serialize, Deserialize, Debug)] struct MyTable { iri: Option<Iri<String>>, iriref: Option<IriRef<String>> }
+#[derive(Serialize, Deserialize, Debug)] struct MyUncheckedTable { iri: Option<String>, iriref: Option<String> }
+#[derive(Serialize, Debug)] struct RawDoc<'a> { id: &'a str }
+#[derive(Serialize, Deserialize, Debug)] enum Tagged { Abs(Iri<String>), Ref(IriRef<String>) }
+#[derive(Serialize, Deserialize, Debug)] #[serde(untagged)] enum AbsOrRef { Abs(Iri<String>), Ref(IriRef<Arc<str>>) }
+#[derive(Serialize, Deserialize, Debug)] #[serde(tag = "kind", content = "id")] enum Adjacent { Abs(Iri<String>), Ref(IriRef<String>) }
+
+macro_rules! serde_paths { ($fname:ident, $W:ident, $Doc:ident, $BorrowDoc:ident, $BoxDoc:ident, $Variant:ident, $field:ident) => {
+    /// every way to obtain a `$W` through serde from the text `s`
+    fn $fname(s: &str) -> Vec<(String, Out)> {
+        let w = stringify!($W);
+        let json = serde_json::to_string(s).unwrap();
+        let plain = json == format!("\"{s}\"");           // no escape: the JSON reader can lend the text
+        let esc = json_all_escaped(s);
+        let raw_toml = quiet(|| toml::to_string(&RawDoc { id: s }).unwrap()).unwrap_or_default();
+        let mut v: Vec<(String, Out)> = vec![];
+        // serde's own value deserializers: each drives one visitor method of the inner type
+        rec(&mut v, w, "<String>::deserialize(StrDeserializer)", || $W::<String>::deserialize(StrDeserializer::<VErr>::new(s)));
+        rec(&mut v, w, "<String>::deserialize(StringDeserializer)", || $W::<String>::deserialize(StringDeserializer::<VErr>::new(s.to_string())));
+        rec(&mut v, w, "<String>::deserialize(BorrowedStrDeserializer)", || $W::<String>::deserialize(BorrowedStrDeserializer::<VErr>::new(s)));
+        rec(&mut v, w, "<String>::deserialize(BytesDeserializer)", || $W::<String>::deserialize(BytesDeserializer::<VErr>::new(s.as_bytes())));
+        rec(&mut v, w, "<&str>::deserialize(BorrowedStrDeserializer)", || $W::<&str>::deserialize(BorrowedStrDeserializer::<VErr>::new(s)));
+        rec(&mut v, w, "<Box<str>>::deserialize(StrDeserializer)", || $W::<Box<str>>::deserialize(StrDeserializer::<VErr>::new(s)));
+        rec(&mut v, w, "<Rc<str>>::deserialize(StringDeserializer)", || $W::<Rc<str>>::deserialize(StringDeserializer::<VErr>::new(s.to_string())));
+        rec(&mut v, w, "<Arc<str>>::deserialize(StrDeserializer)", || $W::<Arc<str>>::deserialize(StrDeserializer::<VErr>::new(s)));
+        rec(&mut v, w, "<Cow<str>>::deserialize(BorrowedStrDeserializer)", || $W::<Cow<str>>::deserialize(BorrowedStrDeserializer::<VErr>::new(s)));
+        // serde_json
+        rec(&mut v, w, "<String> serde_json::from_str", || serde_json::from_str::<$W<String>>(&json));
+        rec(&mut v, w, "<String> serde_json::from_str (\\u escapes)", || serde_json::from_str::<$W<String>>(&esc));
+        rec(&mut v, w, "<Box<str>> serde_json::from_str", || serde_json::from_str::<$W<Box<str>>>(&json));
+        rec(&mut v, w, "<Arc<str>> serde_json::from_str (\\u escapes)", || serde_json::from_str::<$W<Arc<str>>>(&esc));
+        rec(&mut v, w, "<Cow<str>> serde_json::from_str", || serde_json::from_str::<$W<Cow<str>>>(&json));
+        if plain { rec(&mut v, w, "<&str> serde_json::from_str", || serde_json::from_str::<$W<&str>>(&json)); }
+        let doc_json = format!("{{\"id\":{json}}}");
+        if plain { rec(&mut v, w, " borrowed in a struct, serde_json::from_str", || serde_json::from_str::<$BorrowDoc>(&doc_json).map(|d| d.id)); }
+        rec(&mut v, w, "<String> serde_json::from_slice", || serde_json::from_slice::<$W<String>>(json.as_bytes()));
+        rec(&mut v, w, "<Rc<str>> serde_json::from_reader", || serde_json::from_reader::<_, $W<Rc<str>>>(std::io::Cursor::new(json.as_bytes())));
+        rec(&mut v, w, "<String> serde_json::from_value", || serde_json::from_value::<$W<String>>(serde_json::Value::String(s.to_string())));
+        rec(&mut v, w, "<String> deserialize(&serde_json::Value)", || $W::<String>::deserialize(&serde_json::Value::String(s.to_string())));
+        // inside other types
+        rec(&mut v, w, "<String> in Option, serde_json", || serde_json::from_str::<Option<$W<String>>>(&json).map(|o| o.unwrap()));
+        rec(&mut v, w, "<String> in Vec, serde_json", || serde_json::from_str::<Vec<$W<String>>>(&format!("[{json},{esc}]")).map(|mut x| { let a = x.pop().unwrap(); let b = x.pop().unwrap(); assert!(a == b); a }));
+        rec(&mut v, w, "<String> in a tuple, serde_json", || serde_json::from_str::<(u8, $W<String>)>(&format!("[7,{json}]")).map(|x| x.1));
+        rec(&mut v, w, "<String> as a map value, serde_json", || serde_json::from_str::<std::collections::BTreeMap<String, $W<String>>>(&format!("{{\"k\":{json}}}")).map(|mut m| m.remove("k").unwrap()));
+        rec(&mut v, w, "<String> in a derived struct, serde_json", || serde_json::from_str::<$Doc>(&format!("{{\"id\":{esc}}}")).map(|d| d.id));
+        rec(&mut v, w, "<Box<str>> between other fields, serde_json", || serde_json::from_str::<$BoxDoc>(&format!("{{\"n\":1,\"id\":{json},\"tail\":[1,2]}}")).map(|d| d.id));
+        rec(&mut v, w, "<String> in an externally tagged enum, serde_json", || serde_json::from_str::<Tagged>(&format!("{{\"{}\":{json}}}", stringify!($Variant))).map(|t| match t { Tagged::$Variant(x) => x, _ => panic!("other variant") }));
+        rec(&mut v, w, "<String> in an adjacently tagged enum, serde_json", || serde_json::from_str::<Adjacent>(&format!("{{\"kind\":\"{}\",\"id\":{json}}}", stringify!($Variant))).map(|t| match t { Adjacent::$Variant(x) => x, _ => panic!("other variant") }));
+        rec(&mut v, w, "<String> in MyTable, serde_json", || serde_json::from_str::<MyTable>(&format!("{{\"{}\":{json}}}", stringify!($field))).map(|t| t.$field.unwrap()));
+        // toml (the format of the crate's own tests)
+        if !raw_toml.is_empty() {
+            rec(&mut v, w, "<String> in a derived struct, toml::from_str", || toml::from_str::<$Doc>(&raw_toml).map(|d| d.id));
+            rec(&mut v, w, "<String> in MyTable, toml::from_str", || toml::from_str::<MyTable>(&raw_toml.replacen("id", stringify!($field), 1)).map(|t| t.$field.unwrap()));
+            rec(&mut v, w, "<String> toml::Value::try_into", || toml::Value::String(s.to_string()).try_into::<$W<String>>());
+        }
+        v
+    }
+} }
+serde_paths!(iri_serde_paths, Iri, IriDoc, IriBorrowDoc, IriBoxDoc, Abs, iri);
+serde_paths!(iriref_serde_paths, IriRef, IriRefDoc, IriRefBorrowDoc, IriRefBoxDoc, Ref, iriref);
+
+/// All serde construction paths of `s` against the ORACLE (accepted iff RFC 3987 says IRI / IRI reference; the value
+/// holds the text; no panic), inputs that are no string, the untagged enum as a classifier, Serialize and the round trip.
+/// Returns what the model is compared with: (Iri deserialized, IriRef deserialized, classification by the untagged enum,
+/// Iri round trip, IriRef round trip).
+fn serde_checks(s: &str, v: &Verdict, fails: &mut Vec<String>, sum: &mut Summary) -> (Option<String>, Option<String>, Option<bool>, Option<String>, Option<String>) {
+    let mut firsts: Vec<Option<String>> = vec![];
+    for (paths, want, rule) in [(iri_serde_paths(s), v.o_iri, "IRI"), (iriref_serde_paths(s), v.o_iri || v.o_rel, "IRI-reference")] {
+        sum.bump_by("serde:construction paths run", paths.len() as u64);
+        let mut first: Option<Option<String>> = None;
+        for (n, o) in paths {
+            match o {
+                Err(p) => fails.push(format!("[serde entry point panics] {n} on the text {} panics: {p} (RFC 3987 {rule}: {want})", show(s))),
+                Ok(Some(t)) => {
+                    if !want { fails.push(format!("[serde entry point differs from RFC 3987] {n} accepts {} which is not an RFC 3987 {rule}", show(s))); }
+                    if t != s { fails.push(format!("[serde entry point changes the text] {n} on {} holds {}", show(s), show(&t))); }
+                    first.get_or_insert(Some(t));
+                }
+                Ok(None) => { if want { fails.push(format!("[serde entry point differs from RFC 3987] {n} rejects {} which is an RFC 3987 {rule}", show(s))); } first.get_or_insert(None); }
+            }
+        }
+        firsts.push(first.unwrap_or(None));
+    }
+    // inputs that are not a string: an error, never a panic, never a value
+    for (n, o) in [("Iri<String> from a u32", quiet(|| Iri::<String>::deserialize(U32Deserializer::<VErr>::new(7)).is_ok())), ("IriRef<String> from a unit", quiet(|| IriRef::<String>::deserialize(UnitDeserializer::<VErr>::new()).is_ok())),
+                   ("IriRef<String> from JSON null", quiet(|| serde_json::from_str::<IriRef<String>>("null").is_ok())), ("Iri<String> from a JSON array", quiet(|| serde_json::from_str::<Iri<String>>("[\"s:a\"]").is_ok())),
+                   ("Option<Iri<String>> from JSON null is None", quiet(|| !matches!(serde_json::from_str::<Option<Iri<String>>>("null"), Ok(None))))] {
+        if o != Ok(false) { fails.push(format!("[serde entry point] {n}: {:?}", o)); }
+    }
+    // the untagged enum { Abs(Iri), Ref(IriRef) } classifies
+    let json = serde_json::to_string(s).unwrap();
+    let cls = quiet(|| serde_json::from_str::<AbsOrRef>(&json).ok().map(|x| match x { AbsOrRef::Abs(i) => (true, i.unwrap()), AbsOrRef::Ref(i) => (false, i.as_str().to_string()) }));
+    let want_cls = if v.o_iri { Some(true) } else if v.o_rel { Some(false) } else { None };
+    let cls_obs = match &cls {
+        Ok(c) => {
+            if c.as_ref().map(|x| x.0) != want_cls { fails.push(format!("[serde entry point differs from RFC 3987] the untagged enum {{Abs(Iri), Ref(IriRef)}} reads {} as {:?} (true = absolute) but RFC 3987 says {:?}", show(s), c.as_ref().map(|x| x.0), want_cls)); }
+            if let Some((_, t)) = c { if t != s { fails.push(format!("[serde entry point changes the text] the untagged enum on {} holds {}", show(s), show(t))); } }
+            c.as_ref().map(|x| x.0)
+        }
+        Err(p) => { fails.push(format!("[serde entry point panics] the untagged enum {{Abs(Iri), Ref(IriRef)}} on {} panics: {p}", show(s))); None }
+    };
+    // Serialize, and Serialize -> Deserialize
+    let mut rts: Vec<Option<String>> = vec![];
+    for (is_iri, acc) in [(true, v.iri), (false, v.iref)] {
+        if !acc { rts.push(None); continue; }
+        let w = if is_iri { "Iri" } else { "IriRef" };
+        let r = quiet(|| {
+            let mut f: Vec<String> = vec![];
+            macro_rules! ser { ($W:ident, $Doc:ident, $field:ident) => {{
+                let texts: Vec<(&str, String)> = vec![
+                    ("serde_json::to_string of <&str>", serde_json::to_string(&$W::new_unchecked(s)).unwrap()),
+                    ("serde_json::to_string of <String>", serde_json::to_string(&$W::new_unchecked(s.to_string())).unwrap()),
+                    ("serde_json::to_string of <Box<str>>", serde_json::to_string(&$W::new_unchecked(Box::<str>::from(s))).unwrap()),
+                    ("serde_json::to_string of <Rc<str>>", serde_json::to_string(&$W::new_unchecked(Rc::<str>::from(s))).unwrap()),
+                    ("serde_json::to_string of <Cow<str>>", serde_json::to_string(&$W::new_unchecked(Cow::Borrowed(s))).unwrap()),
+                    ("serde_json::to_vec of <Arc<str>>", String::from_utf8(serde_json::to_vec(&$W::new_unchecked(Arc::<str>::from(s))).unwrap()).unwrap()),
+                    ("serde_json::to_value of <String>", serde_json::to_value(&$W::new_unchecked(s.to_string())).unwrap().to_string()),
+                ];
+                for (n, t) in texts { if t != json { f.push(format!("[serde Serialize] {n} for {w}({}) gives {t}, the text serializes as {json}", show(s))); } }
+                if serde_json::to_value(&$W::new_unchecked(s)).unwrap() != serde_json::Value::String(s.to_string()) { f.push(format!("[serde Serialize] {w}({}) does not serialize as a string value", show(s))); }
+                match toml::Value::try_from(&$W::new_unchecked(s)) { Ok(toml::Value::String(t)) if t == s => (), o => f.push(format!("[serde Serialize] toml::Value::try_from({w}({})) gives {:?}", show(s), o)) }
+                let doc = $Doc { id: $W::new_unchecked(s.to_string()) };
+                let j = serde_json::to_string(&doc).unwrap();
+                if j != format!("{{\"id\":{json}}}") { f.push(format!("[serde Serialize] a derived struct holding {w}({}) serializes as {j}", show(s))); }
+                match serde_json::from_str::<$Doc>(&j) { Ok(d) if d.id == doc.id => (), o => f.push(format!("[serde round trip] {w}({}) in a derived struct through serde_json comes back as {:?}", show(s), o.map(|d| d.id.unwrap()).map_err(|e| e.to_string()))) }
+                match toml::to_string(&doc) {
+                    Ok(t) => match toml::from_str::<$Doc>(&t) { Ok(d) if d.id == doc.id => (), o => f.push(format!("[serde round trip] {w}({}) in a derived struct through toml comes back as {:?}", show(s), o.map(|d| d.id.unwrap()).map_err(|e| e.to_string()))) },
+                    Err(e) => f.push(format!("[serde Serialize] toml::to_string of a derived struct holding {w}({}) fails: {e}", show(s))),
+                }
+                let table = MyTable { iri: None, iriref: None };
+                let table = MyTable { $field: Some($W::new_unchecked(s.to_string())), ..table };
+                match toml::to_string(&table).map_err(|e| e.to_string()).and_then(|t| toml::from_str::<MyTable>(&t).map_err(|e| e.to_string())) { Ok(t) if t.$field.as_ref().map(|x| x.as_str()) == Some(s) => (), o => f.push(format!("[serde round trip] MyTable holding {w}({}) through toml comes back as {:?}", show(s), o)) }
+                // the round trip handed to the model
+                let back = serde_json::from_str::<$W<String>>(&serde_json::to_string(&$W::new_unchecked(s)).unwrap()).ok().map(|x| x.unwrap());
+                if back.as_deref() != Some(s) { f.push(format!("[serde round trip] {w}({}) through serde_json comes back as {:?}", show(s), back)); }
+                (f, back)
+            }} }
+            if is_iri { ser!(Iri, IriDoc, iri) } else { ser!(IriRef, IriRefDoc, iriref) }
+        });
+        match r { Ok((f, back)) => { fails.extend(f); rts.push(back); sum.bump("serde:round trips"); } Err(p) => { fails.push(format!("[serde entry point panics] Serialize / round trip of {w}({}) panics: {p}", show(s))); rts.push(None); } }
+    }
+    (firsts[0].clone(), firsts[1].clone(), cls_obs, rts[0].clone(), rts[1].clone())
+}
+
 fn probe(hexs: &str) {
     let bytes: Vec<u8> = (0..hexs.len() / 2).map(|i| u8::from_str_radix(&hexs[2 * i..2 * i + 2], 16).unwrap()).collect();
     let s = String::from_utf8(bytes).expect("utf-8");
@@ -692,7 +933,12 @@ fn probe(hexs: &str) {
     println!("  oxiri: Iri::parse.is_ok={} IriRef::parse.is_ok={}", sophia_iri::resolve::BaseIri::new(s.as_str()).is_ok(), sophia_iri::resolve::BaseIriRef::new(s.as_str()).is_ok());
     if v.iri { println!("  Iri::as_base: {:?}", quiet(|| Iri::new(s.as_str()).unwrap().as_base().to_string())); }
     if v.iref { println!("  IriRef::as_base: {:?}", quiet(|| IriRef::new(s.as_str()).unwrap().as_base().to_string())); }
-    println!("  verdict: {}", if v.abs == v.o_iri && v.rel == v.o_rel { "agreement" } else { "DISAGREEMENT between sophia_iri and RFC 3987" });
+    let mut fails = vec![];
+    let mut sum = Summary::default();
+    let sd = serde_checks(&s, &v, &mut fails, &mut sum);
+    println!("  serde: Iri deserialized {:?}, IriRef deserialized {:?}, untagged enum (true = Abs) {:?}, round trips {:?} {:?}", sd.0, sd.1, sd.2, sd.3, sd.4);
+    for f in &fails { println!("  ORACLE FAILURE: {f}"); }
+    println!("  verdict: {}", if v.abs == v.o_iri && v.rel == v.o_rel && fails.is_empty() { "agreement" } else { "DISAGREEMENT between sophia_iri and RFC 3987" });
 }
 
 fn main() {
@@ -703,8 +949,14 @@ fn main() {
     sum.rule = "case = one string (systematic list first: all IPv6 shapes with 0-8 groups around '::', IPvFuture incl. 'V', dec-octet boundaries, every ucschar/iprivate range end +-1 and every ASCII character in every component; then generated members of IRI / irelative-ref, their single-character mutants, random strings over 31 delimiter-heavy characters) checked for validation, as_base and Namespace::get, \
 plus (for 2 cases out of 3) a (base, reference) pair of generated members with dot segments checked for resolution through every resolve entry point; \
 on every case also: the validators called directly (is_valid_iri_ref, is_valid_suffixed_iri_ref), the constructors over 7 container types with every accessor/conversion/comparison of the wrappers, BaseIri/BaseIriRef::new and their components, Namespace's other constructors, \
-and a second pair (absolute or relative base, directed or generated; reference = the case's string 2 times out of 3, valid or not) resolved as typed value and as &str; non-trivial = contains an IP-literal, a non-ASCII or percent-encoded character, a userinfo/port, an empty or dot segment, or is rejected by someone; distinct = distinct (string, base, reference)".into();
-    let sys = systematic();
+and a second pair (absolute or relative base, directed or generated; reference = the case's string 2 times out of 3, valid or not) resolved as typed value and as &str; every serde construction path (Deserialize over 6 container types through serde's value deserializers, serde_json and toml, bare and nested; Serialize; round trip) on the case's string; \
+a directed stream (ASCII delimiters, every non-ASCII character tied to ASCII by the Unicode case mappings, look-alikes, at every grammar position) and, outside the cases, a validators-only sweep of ~3000 characters at every position; \
+non-trivial = contains an IP-literal, a non-ASCII or percent-encoded character, a userinfo/port, an empty or dot segment, or is rejected by someone; distinct = distinct (string, base, reference)".into();
+    let mut sys = systematic();
+    let n_old_sys = sys.len();
+    // the directed positions come after the older systematic strings (whose case numbers stay what they were)
+    sys.extend(directed_positions());
+    sum.extra.push(("directed_position_strings".into(), (sys.len() - n_old_sys).to_string()));
     let base = Rng::new(a.seed);
     let mut cases = vec![];
     let mut seen = std::collections::HashSet::new();
@@ -712,10 +964,39 @@ and a second pair (absolute or relative base, directed or generated; reference =
     let verbose = a.only.is_some();
     const CAP: u64 = 400;
     let mut total_failures: u64 = 0;
+    // ---------- the sweep: the validators against the RFC 3987 recogniser, ~3000 characters at every position ----------
+    if a.only.is_none() {
+        let chars = sweep_chars();
+        let mut n = 0u64;
+        let mut listed: u64 = 0;
+        for &c in &chars {
+            for (pos, t) in POSITIONS {
+                let s = t.replace("{}", &c.to_string());
+                let v = verdicts(&s);
+                n += 1;
+                let mut f: Vec<String> = vec![];
+                if v.abs != v.o_iri { f.push(format!("is_absolute_iri_ref({}) = {} but the RFC 3987 rule IRI {} it", show(&s), v.abs, if v.o_iri { "accepts" } else { "rejects" })); }
+                if v.rel != v.o_rel { f.push(format!("is_relative_iri_ref({}) = {} but the RFC 3987 rule irelative-ref {} it", show(&s), v.rel, if v.o_rel { "accepts" } else { "rejects" })); }
+                if v.iri != v.o_iri && v.abs == v.o_iri { f.push(format!("Iri::new({}).is_ok() = {} but RFC 3987 IRI says {}", show(&s), v.iri, v.o_iri)); }
+                if v.iref != (v.o_iri || v.o_rel) && v.abs == v.o_iri && v.rel == v.o_rel { f.push(format!("IriRef::new({}).is_ok() = {} but RFC 3987 IRI-reference says {}", show(&s), v.iref, v.o_iri || v.o_rel)); }
+                if is_valid_iri_ref(&s) != (v.o_iri || v.o_rel) && f.is_empty() { f.push(format!("is_valid_iri_ref({}) = {} but RFC 3987 IRI-reference says {}", show(&s), !(v.o_iri || v.o_rel), v.o_iri || v.o_rel)); }
+                if (v.iri && BaseIri::new(s.as_str()).is_err()) || (v.iref && BaseIriRef::new(s.as_str()).is_err()) { f.push(format!("Iri::new / IriRef::new accept {} but the resolver refuses it: as_base() / resolve() on the accepted value panic", show(&s))); }
+                for x in f {
+                    sum.bump("oracle-failure:sweep");
+                    total_failures += 1;
+                    // replayed with `--probe <hex>` (the case id is spliced into the replay command after `--only`)
+                    if listed < CAP { listed += 1; sum.oracle_failures.push((format!("0 --probe {}", s.bytes().map(|b| format!("{b:02x}")).collect::<String>()), format!("[sweep: U+{:04X} at {pos}] {x}", c as u32))); }
+                }
+            }
+        }
+        sum.extra.push(("sweep_strings".into(), n.to_string()));
+        sum.extra.push(("sweep_characters".into(), chars.len().to_string()));
+        sum.bump_by("sweep:validators vs RFC 3987 recogniser", n);
+    }
     for idx in range {
         let mut r = base.fork(idx as u64);
         // ---------- the string ----------
-        let (kind, s): (&str, String) = if idx < sys.len() { ("systematic", sys[idx].clone()) } else {
+        let (kind, s): (&str, String) = if idx < sys.len() { (if idx < n_old_sys { "systematic" } else { "directed-position" }, sys[idx].clone()) } else {
             match r.below(10) {
                 0..=2 => ("member-iri", gen_member(&mut r, true, false)),
                 3 | 4 => ("member-relative", gen_member(&mut r, false, false)),
@@ -820,6 +1101,11 @@ and a second pair (absolute or relative base, directed or generated; reference =
                 sum.bump("components-compared");
             }
             namespace_checks(&ns, &suf, &s, ns_ok, get_ok, &mut fails);
+            // the serde entry points
+            let (de_iri, de_ref, cls, rt_iri, rt_ref) = serde_checks(&s, &v, &mut fails, &mut sum);
+            let o = |x: &Option<String>| coq_opt(x.as_ref().map(|y| coq_str(y)));
+            body.push_str(&format!(" && serde_ok {} {} {} {} {} {}", coq_str(&s), o(&de_iri), o(&de_ref), coq_opt(cls.map(|b| coq_bool(b).to_string())), o(&rt_iri), o(&rt_ref)));
+            sum.bump(match cls { Some(true) => "serde:untagged enum:Abs", Some(false) => "serde:untagged enum:Ref", None => "serde:untagged enum:Err" });
             // resolution of (mostly) the case's own string, also when it is not a valid reference, against an absolute or a relative base
             let nb = if r2.chance(1, 2) { if r2.chance(1, 4) { r2.pick(DIRECTED_BASES).to_string() } else { gen_member(&mut r2, true, true) } }
                      else if r2.chance(1, 3) { r2.pick(DIRECTED_REL_BASES).to_string() } else { gen_member(&mut r2, false, true) };
